@@ -315,9 +315,7 @@ func TestVerifC06Startup(t *testing.T) {
 			case "create-over-lock":
 				s.w.lock[id] = c06Sign(s.config(s.newProc()), 0, vfref.EmptyRoot(), s.w.clock-5)
 				_, err := s.create(nil)
-				if !errors.Is(err, ErrLogExists) {
-					fail("CreateLog over an existing lock checkpoint returned %v, want ErrLogExists", err)
-				}
+				expectErr("CreateLog over an existing lock checkpoint", err)
 			case "create-over-storage":
 				s.w.objs["checkpoint"] = c06Sign(s.config(s.newProc()), 0, vfref.EmptyRoot(), s.w.clock-5)
 				_, err := s.create(nil)
